@@ -13,21 +13,71 @@ package types
 //@   trusted
 //@   ensures (err == nil) == distParamsValid(snap(p))
 
-//@ // ---- validation of one sub distributor (no-panic sweep; the loops carry "the prefix was validated") ----
-//@ pred sharesChecked(shares, n) = forall j :: {shares[j]} 0 <= j && j < n ==> shares[j] != nil && !shares[j].Share.IsNil() && 0 <= shares[j].Share && shares[j].Share < P
+//@ // ---- validation of one sub distributor: what Validate establishes (C10: the distribution arithmetic relies on it) ----
+//@ // sum of the first n shares of a share list (ptrs: element row of the list, shr: DestinationShare.Share column, o: offset)
+//@ spec func sumShares(ptrs [int]int, shr [int]int, o int, n int) int = n <= 0 ? 0 : sumShares(ptrs, shr, o, n - 1) + shr[ptrs[o + n - 1]]
+//@ // the same sum weighted by x (kept as its own function so that obligations stay linear in the products x*share)
+//@ spec func wsumShares(x int, ptrs [int]int, shr [int]int, o int, n int) int = n <= 0 ? 0 : wsumShares(x, ptrs, shr, o, n - 1) + x * shr[ptrs[o + n - 1]]
+//@ pred sharesChecked(shares, n) = forall j: int :: {shares[j]} 0 <= j && j < n ==> shares[j] != nil && !shares[j].Share.IsNil() && 0 <= shares[j].Share && shares[j].Share < P
+//@ spec func sharesNonNeg(ptrs [int]int, shr [int]int, o int, n int) bool = n <= 0 ? true : (sharesNonNeg(ptrs, shr, o, n - 1) && shr[ptrs[o + n - 1]] >= 0)
+//@ pred shareSumOf(dst, n) = sumShares(elemRow(dst.Shares), heapOf("DestinationShare", "Share"), off(dst.Shares), n)
+//@ pred sharesNonNegOf(dst, n) = sharesNonNeg(elemRow(dst.Shares), heapOf("DestinationShare", "Share"), off(dst.Shares), n)
+//@ pred destinationsValid(dst) = !dst.BurnShare.IsNil() && 0 <= dst.BurnShare && sharesChecked(dst.Shares, len(dst.Shares))
+//@   && sharesNonNegOf(dst, len(dst.Shares)) && dst.BurnShare + shareSumOf(dst, len(dst.Shares)) < P
+//@ lemma sharesNonNegPrefix(ptrs [int]int, shr [int]int, o int, i int, n int)
+//@   induction n
+//@   requires 0 <= i && i <= n && sharesNonNeg(ptrs, shr, o, n)
+//@   ensures sharesNonNeg(ptrs, shr, o, i)
+//@   prop C10
+//@ lemma sumSharesNonNeg(ptrs [int]int, shr [int]int, o int, n int)
+//@   induction n
+//@   requires n >= 0 && sharesNonNeg(ptrs, shr, o, n)
+//@   ensures sumShares(ptrs, shr, o, n) >= 0
+//@   prop C10
+//@ lemma sumSharesMono(ptrs [int]int, shr [int]int, o int, i int, n int)
+//@   induction n
+//@   requires 0 <= i && i <= n && sharesNonNeg(ptrs, shr, o, n)
+//@   ensures sumShares(ptrs, shr, o, i) <= sumShares(ptrs, shr, o, n)
+//@   prop C10
+//@ lemma wsumIsProduct(x int, ptrs [int]int, shr [int]int, o int, n int)
+//@   induction n
+//@   requires n >= 0
+//@   ensures wsumShares(x, ptrs, shr, o, n) == x * sumShares(ptrs, shr, o, n)
+//@   prop C10
+//@ lemma wsumStep(x int, ptrs [int]int, shr [int]int, o int, n int)
+//@   requires n >= 1
+//@   ensures wsumShares(x, ptrs, shr, o, n) == wsumShares(x, ptrs, shr, o, n - 1) + x * shr[ptrs[o + n - 1]]
+//@   prop C10
+//@ // with non-negative shares whose total (plus the burn share b) stays below 1, the weighted prefix sums never exceed x
+//@ lemma wsumBound(x int, ptrs [int]int, shr [int]int, o int, i int, n int, b int)
+//@   requires x >= 0 && b >= 0 && 0 <= i && i <= n && sharesNonNeg(ptrs, shr, o, n)
+//@   requires b + sumShares(ptrs, shr, o, n) < P
+//@   uses sumSharesMono(ptrs, shr, o, i, n), wsumIsProduct(x, ptrs, shr, o, i), sharesNonNegPrefix(ptrs, shr, o, i, n), sumSharesNonNeg(ptrs, shr, o, i)
+//@   ensures wsumShares(x, ptrs, shr, o, i) + x * b <= x * P
+//@   prop C10
+//@ // canary: without the bound on the total the claim must not be provable
+//@ lemma wsumBoundCanary(x int, ptrs [int]int, shr [int]int, o int, i int, n int, b int)
+//@   requires x >= 0 && b >= 0 && 0 <= i && i <= n && sharesNonNeg(ptrs, shr, o, n)
+//@   uses sumSharesMono(ptrs, shr, o, i, n), wsumIsProduct(x, ptrs, shr, o, i), sharesNonNegPrefix(ptrs, shr, o, i, n), sumSharesNonNeg(ptrs, shr, o, i)
+//@   ensures wsumShares(x, ptrs, shr, o, i) + x * b <= x * P
+//@   expect fail
+//@   prop C10
 //@ func (destinations Destinations) CheckIfSharesSumIsBetween0And1() (err)
 //@   requires !destinations.BurnShare.IsNil() && 0 <= destinations.BurnShare && destinations.BurnShare < P
 //@   requires sharesChecked(destinations.Shares, len(destinations.Shares)) && len(destinations.Shares) <= 1000000
-//@   prop C20
+//@   ensures err == nil ==> destinations.BurnShare + shareSumOf(destinations, len(destinations.Shares)) < P
+//@   prop C20 C10
 //@ loop Destinations.CheckIfSharesSumIsBetween0And1#1
 //@   invariant 0 <= \i && \i <= len(destinations.Shares)
 //@   invariant !shareSum.IsNil() && 0 <= shareSum && shareSum <= (\i + 1) * P
+//@   invariant shareSum == destinations.BurnShare + shareSumOf(destinations, \i)
 //@ func (destinations Destinations) Validate(primaryShareName) (err)
 //@   requires len(destinations.Shares) <= 1000000
-//@   prop C20
+//@   ensures err == nil ==> destinationsValid(destinations)
+//@   prop C20 C10
 //@ loop Destinations.Validate#1
 //@   invariant 0 <= \i && \i <= len(destinations.Shares)
-//@   invariant sharesChecked(destinations.Shares, \i)
+//@   invariant sharesChecked(destinations.Shares, \i) && sharesNonNegOf(destinations, \i)
 //@   invariant !destinations.BurnShare.IsNil() && 0 <= destinations.BurnShare && destinations.BurnShare < P
 //@ func (subdistributor SubDistributor) Validate() (err)
 //@   requires len(subdistributor.Destinations.Shares) <= 1000000
